@@ -16,6 +16,10 @@ import (
 func init() { register("C17", checkC17) }
 
 func checkC17(p *Prog, r *Report) {
+	r.rule("C17.wrapper-new: Wrapper.New wraps reflect.New(<wrapped type>).Interface(), a zero value, never the wrapped value itself")
+	checkWrapperNew(p, r, "C17")
+	r.rule("C17.inspectors-pure: BuildType, Wrap, Check, IDAndType and what they call in the package use no package-level variable that is modified at run time (no cache keyed by type or name): what they report for a struct depends on that struct alone")
+	checkInspectorsPure(p, r, "C17")
 	r.rule("C17.id-field: Wrapper.SetID stores through FieldByName(\"ID\") of the wrapped value (the field Check validates by its Go name) and GetID reads the ID from the wrapped value on every call; the Wrapper keeps no ID of its own")
 	checkWrapperID(p, r, "C17")
 	r.rule("C17.get-api-only: where Wrapper.getField (or its search helper) matches the key against a json tag it also tests the field's api tag, so Get only reads fields that belong to the resource")
@@ -311,6 +315,24 @@ func checkWrapperGetSet(p *Prog, r *Report) {
 			return
 		}
 		if _, isRet := c.Block().Instrs[len(c.Block().Instrs)-1].(*ssa.Return); isRet {
+			okSet = true
+			return
+		}
+		// or the field search is simply not reachable after it (a switch on
+		// the key with the search in another arm)
+		searchAfter := false
+		nSearch := 0
+		eachInstr(set, func(i2 ssa.Instruction) {
+			c2, ok := i2.(*ssa.Call)
+			if !ok || c2.Common().StaticCallee() == nil || c2.Common().StaticCallee().Name() != "setField" {
+				return
+			}
+			nSearch++
+			if reachableAvoiding(c, c2, nil) {
+				searchAfter = true
+			}
+		})
+		if nSearch > 0 && !searchAfter {
 			okSet = true
 		}
 	})
@@ -1271,4 +1293,50 @@ func checkWrapperID(p *Prog, r *Report, prefix string) {
 			"Wrapper.GetID does not read the ID from the wrapped struct (IDAndType(w.val.Interface()) or FieldByName(\"ID\")): a cached ID goes stale when the struct's ID field is assigned directly, so selection by ID and the id sort rule see another ID than the resource holds")
 	}
 	r.floor("returns of GetID", n, 1)
+}
+
+// checkWrapperNew: Wrapper.New wraps a freshly allocated zero value of the
+// struct type (reflect.New(w.val.Type()).Interface()), never the wrapped value
+// itself: a new resource reads as all zero values, like SoftResource.New.
+func checkWrapperNew(p *Prog, r *Report, prefix string) {
+	f := p.Fn("(*Wrapper).New")
+	if f == nil {
+		r.fail("anchor (*Wrapper).New not found")
+		return
+	}
+	n := 0
+	for _, b := range f.Blocks {
+		ret, ok := b.Instrs[len(b.Instrs)-1].(*ssa.Return)
+		if !ok || len(ret.Results) != 1 {
+			continue
+		}
+		n++
+		good := false
+		for _, o := range originsDeep(ret.Results[0]) {
+			c, _ := callOf(o)
+			if c == nil || c.Common().StaticCallee() == nil || c.Common().StaticCallee().Name() != "Wrap" || len(c.Common().Args) != 1 {
+				continue
+			}
+			good = true
+			for _, a := range originsDeep(c.Common().Args[0]) {
+				ic, _ := callOf(a)
+				if ic == nil || ic.Common().StaticCallee() == nil || fullName(ic.Common().StaticCallee()) != "reflect.(Value).Interface" {
+					good = false
+					continue
+				}
+				fresh := false
+				for _, v := range originsDeep(ic.Common().Args[0]) {
+					if nc, _ := callOf(v); nc != nil && nc.Common().StaticCallee() != nil && fullName(nc.Common().StaticCallee()) == "reflect.New" {
+						fresh = true
+					}
+				}
+				if !fresh {
+					good = false
+				}
+			}
+		}
+		r.decide(good, prefix+".wrapper-new", "(*Wrapper).New:"+p.describe(ret), p.pos(ret.Pos()), "wraps reflect.New(type).Interface()",
+			"Wrapper.New does not wrap a freshly allocated zero struct (reflect.New of the wrapped type): the new resource carries the ID and field values of the wrapper it came from, while SoftResource.New returns zero values")
+	}
+	r.floor("returns of Wrapper.New", n, 1)
 }
